@@ -81,6 +81,11 @@ pub fn catch<T>(f: impl FnOnce() -> T) -> Result<T, String> {
     }
 }
 
+/// `Expr::parse` under the panic boundary: None when the parser panicked (a matter for C06, not for the caller)
+pub fn parse_guarded(text: &str) -> Option<Result<reval::prelude::Expr, String>> {
+    catch(|| reval::prelude::Expr::parse(text)).ok().map(|r| r.map_err(|e| e.to_string()))
+}
+
 // ------------------------------------------------------------------------------------------
 // minimal executor
 
